@@ -143,11 +143,11 @@ theorem lastW_notes {α} (im : List (Nat × Nat)) (m : Mapping) (g : α → Nat)
 def highlight (d : Dev) (leds : List String) (m : Mapping) (base : RGB) (i : Nat) : RGB :=
   let im := indexMap leds
   let off : Int := d.semitone + d.octave * 12
-  if lit im m (fun (p : Code × (Nat × Nat)) => baseOf p.2.1 off) d.noteTr i then d.cfg.colors.active
-  else if lit im m (fun (p : Nat × Nat) => baseOf p.2 off) (d.ext.filter (fun p => p.1 = d.channel)) i then
+  if lit im m (fun (p : Code × (Nat × Nat)) => baseOf p.2.1 off) (ownOn d off) i then d.cfg.colors.active
+  else if lit im m (fun (p : Nat × Nat) => baseOf p.2 off) (extOn d d.channel (d.semitone + d.octave * 12)) i then
     d.cfg.colors.activeExternal
   else match (List.range 16).find? (fun ch =>
-      lit im m (fun (p : Nat × Nat) => baseOf p.2 off) (d.ext.filter (fun p => p.1 = ch)) i) with
+      lit im m (fun (p : Nat × Nat) => baseOf p.2 off) (extOn d ch (d.semitone + d.octave * 12)) i) with
     | some ch => chanColor ch
     | none => base
 
@@ -176,7 +176,7 @@ theorem frame_highlight (d : Dev) (devName : String) (leds : List String) (shift
   rw [hb]
   -- the sixteen channel passes
   rw [foldl_writes (n := leds.length) _
-    (fun ch => (d.ext.filter (fun p => p.1 = ch)).flatMap
+    (fun ch => (extOn d ch (d.semitone + d.octave * 12)).flatMap
       (fun p => wNote (indexMap leds) m (baseOf p.2 (d.semitone + d.octave * 12)) (chanColor ch))) _ _ base hlen]
   rotate_left
   · intro ch l hl
@@ -198,10 +198,10 @@ theorem frame_highlight (d : Dev) (devName : String) (leds : List String) (shift
   rw [← applyW_append, ← applyW_append, applyW_get _ _ i hi]
   congr 1
   rw [lastW_append, lastW_append, lastW_notes, lastW_notes, lastW_flatMap, List.reverse_reverse]
-  have e : (fun ch => lastW ((d.ext.filter (fun p => p.1 = ch)).flatMap
+  have e : (fun ch => lastW ((extOn d ch (d.semitone + d.octave * 12)).flatMap
       (fun p => wNote (indexMap leds) m (baseOf p.2 (d.semitone + d.octave * 12)) (chanColor ch))) i) =
       (fun ch => if lit (indexMap leds) m (fun (p : Nat × Nat) => baseOf p.2 (d.semitone + d.octave * 12))
-        (d.ext.filter (fun p => p.1 = ch)) i then some (chanColor ch) else none) := by
+        (extOn d ch (d.semitone + d.octave * 12)) i then some (chanColor ch) else none) := by
     funext ch; exact lastW_notes _ _ _ _ _ _
   rw [e, findSome_range]
   unfold highlight
